@@ -413,8 +413,54 @@ def parameter_threaded(ctx, rel, rule, pname, min_calls=2):
                 ctx.ob(rule, rel, q, f"{x.id} is called where it is named", False,
                        f"`{x.id}` (it has the parameter `{pname}`) is passed on / wrapped instead of called: whether `{pname}` reaches it cannot be followed",
                        x.lineno)
+    # calls from places that HAVE no such parameter - a module-level lambda, a method of a helper class, a function without it - decide
+    # the setting themselves: whoever goes through them loses the caller's value (the public entry points of the reference that fix a
+    # default for their callers are counted by the reference: no more of these than it had)
+    covered = set()
+    for q, f in s.funcs.items():
+        ps = [a.arg for a in f.args.posonlyargs + f.args.args + f.args.kwonlyargs]
+        if pname in ps:
+            covered.update(id(c) for c in ast.walk(f) if isinstance(c, ast.Call))
+    for lam in ast.walk(s.tree):
+        if isinstance(lam, ast.Lambda) and any(a.arg == pname for a in ast.walk(lam.args) if isinstance(a, ast.arg)):
+            covered.update(id(c) for c in ast.walk(lam) if isinstance(c, ast.Call))
+    outside = [c for c in ast.walk(s.tree) if isinstance(c, ast.Call) and id(c) not in covered and (call_name(c) or "").split(".")[-1] in sig
+               and (isinstance(c.func, ast.Name) or isinstance(c.func, ast.Attribute) and isinstance(c.func.value, ast.Name) and c.func.value.id in ("self", "cls"))]
+    from . import localnames
+    ref_n = ((localnames.table().get(rel, {}).get("__inventory__") or {}).get("unthreaded_calls") or {}).get(pname)
+    if ref_n is not None:
+        n += 1
+        ctx.ob(rule, rel, "<module>", f"{len(outside)} call(s) of functions with `{pname}` from places without it", len(outside) <= ref_n,
+               f"`{ast.unparse(outside[-1])[:60] if outside else ''}` is made where no `{pname}` is in scope (a lambda, a helper class, a function "
+               f"without the parameter): the value the caller gave cannot reach it", outside[-1].lineno if outside else 1)
     ctx.floor(f"{rule}:{rel}", n, min_calls)
     return n
+
+
+def unthreaded_call_counts(tree):
+    """inventory side of parameter_threaded: for every parameter name that at least two functions of the module share, the number of
+    calls of such functions from places where the name is no parameter in scope"""
+    from . import pyxfront
+    funcs = dict(pyxfront.iter_funcs(tree))
+    by_param = {}
+    for q, f in funcs.items():
+        for a in f.args.posonlyargs + f.args.args + f.args.kwonlyargs:
+            by_param.setdefault(a.arg, set()).add(q.split(".")[-1])
+    out = {}
+    for pname, names_ in by_param.items():
+        if len(names_) < 2 or pname in ("self", "cls"):
+            continue
+        covered = set()
+        for q, f in funcs.items():
+            if pname in [a.arg for a in f.args.posonlyargs + f.args.args + f.args.kwonlyargs]:
+                covered.update(id(c) for c in ast.walk(f) if isinstance(c, ast.Call))
+        for lam in ast.walk(tree):
+            if isinstance(lam, ast.Lambda) and any(a.arg == pname for a in ast.walk(lam.args) if isinstance(a, ast.arg)):
+                covered.update(id(c) for c in ast.walk(lam) if isinstance(c, ast.Call))
+        out[pname] = sum(1 for c in ast.walk(tree) if isinstance(c, ast.Call) and id(c) not in covered and (call_name(c) or "").split(".")[-1] in names_
+                         and (isinstance(c.func, ast.Name) or isinstance(c.func, ast.Attribute) and isinstance(c.func.value, ast.Name)
+                              and c.func.value.id in ("self", "cls")))
+    return out
 
 
 def _names(e):
